@@ -628,6 +628,36 @@ def isolate(seed):
 PROFILES["isolate"] = isolate
 
 
+_ACCT_BASE = PROFILES["acct"]
+
+
+def acct_profile(seed):
+    """Random accounting scenarios, plus (every 4th seed) a template: the daemon's only running children are workers it
+    has let go of (`rm` with nostop) -- no watcher tracks anything any more -- and one of them exits: it is still the
+    daemon's child, and a zombie does not outlive a periodic check."""
+    import random
+    if seed % 4 != 1:
+        return scenario.gen_scenario(seed, _ACCT_BASE)
+    rng = random.Random(seed)
+    ws = [{"name": "w1", "np": rng.choice([1, 2]), "G": 0.1, "W": 0.0}]
+    if rng.random() < 0.5:
+        ws.append({"name": "w2", "np": 0, "G": 0.1, "W": 0.0})
+    s = [{"op": "boot"}, {"op": "advance", "dt": 1.0},
+         {"op": "req", "cmd": "rm", "props": {"name": "w1", "nostop": True, "waiting": rng.random() < 0.5}},
+         {"op": "advance", "dt": rng.choice([0.1, 0.6, 1.2])}]
+    for _ in range(rng.randint(1, 2)):
+        s.append({"op": "die", "untracked": rng.randint(0, 1), "status": rng.choice(scenario.EXIT_STATUSES)})
+        s.append({"op": "advance", "dt": rng.choice([0.6, 1.2])})
+        if rng.random() < 0.4:
+            s.append({"op": "probe"})
+    s.append({"op": "end", "xprobe": False, "passes": 2})
+    return {"seed": seed, "watchers": ws, "check_delay": 0.5, "warmup_delay": 0.0,
+            "stubborn": [], "obeys": [True], "instant_death": False, "script": s}
+
+
+PROFILES["acct"] = acct_profile
+
+
 _SHUTDOWN_BASE = PROFILES["shutdown"]
 
 
